@@ -7,4 +7,4 @@ Extraction "model.ml" mkNumOps nhalf wrap value_to_bin bin_to_value bins index_o
   get_state_params write_restart read_block parse_params read_restart mkCv init_bounds dx_origin dx_delta zeros
   write_raw_bin read_raw_bin normalise denormalise write_multicol_norm read_multicol_norm dec_round fmt_toks gather
   wrap_strict wrap_to_edge value_to_bin_bound bins_bound bin_fraction map_grid add_grid delta_grid multiply_constant add_constant
-  remove_small_values extra_bin_dim init_dim.
+  remove_small_values extra_bin_dim init_dim bin_distance_from_boundaries.
